@@ -37,7 +37,13 @@ Definition jref_ok (s : cst) (j : nat) : Prop :=
   forall x, nth_error (cj s) (j - jlo) = Some x -> x = 0 \/ x = ilo \/ (ilo < x /\ term_at s (x - 1)).
 
 Definition bsinv (s : cst) : Prop :=
-  forall k io j, nth_error (ci s) k = Some io -> body_ref io = Some j -> jref_ok s j.
+  (forall k io j, nth_error (ci s) k = Some io -> body_ref io = Some j -> jref_ok s j) /\
+  jref_ok s jlo.
+
+(* the containing expression of the code being emitted: the program's entry or
+   the entry of a nested expression whose `Put` is already in the stream *)
+Definition cont_ok (s : cst) (c : nat) : Prop :=
+  c = jlo \/ exists k, nth_error (ci s) k = Some (I_Put, OExpr c).
 
 Lemma jinv_mono : forall H H' s, incl H H' -> jinv H s -> jinv H' s.
 Proof.
@@ -102,16 +108,35 @@ Qed.
 Lemma bsinv_ext_emit : forall s io m, bsinv s ->
   (forall j, body_ref io = Some j -> jref_ok s j) -> bsinv (emit s io m).
 Proof.
-  intros s io m Hb Hio k io' j Hk Hr. cbn [emit ci] in Hk.
-  apply nth_error_snoc in Hk. destruct Hk as [[Hlt Hk]|[Hk Hx]].
-  - eapply jref_ok_ext; [apply ext_emit | eapply Hb; eauto].
-  - subst. eapply jref_ok_ext; [apply ext_emit | apply Hio; exact Hr].
+  intros s io m [Hb H0] Hio. split.
+  - intros k io' j Hk Hr. cbn [emit ci] in Hk.
+    apply nth_error_snoc in Hk. destruct Hk as [[Hlt Hk]|[Hk Hx]].
+    + eapply jref_ok_ext; [apply ext_emit | eapply Hb; eauto].
+    + subst. eapply jref_ok_ext; [apply ext_emit | apply Hio; exact Hr].
+  - eapply jref_ok_ext; [apply ext_emit | exact H0].
 Qed.
 
 Lemma bsinv_new_jump : forall s x, bsinv s -> bsinv (new_jump s x).
 Proof.
-  intros s x Hb k io j Hk Hr. cbn [new_jump ci] in Hk.
-  eapply jref_ok_ext; [apply ext_new_jump | eapply Hb; eauto].
+  intros s x [Hb H0]. split.
+  - intros k io j Hk Hr. cbn [new_jump ci] in Hk.
+    eapply jref_ok_ext; [apply ext_new_jump | eapply Hb; eauto].
+  - eapply jref_ok_ext; [apply ext_new_jump | exact H0].
+Qed.
+
+Lemma cont_ok_ext : forall s s' c, ext s s' -> cont_ok s c -> cont_ok s' c.
+Proof.
+  intros s s' c [a [b [d [Ha _]]]] [Hc|[k Hk]]; [left; exact Hc|]. right. exists k.
+  rewrite Ha. rewrite nth_error_app1; [exact Hk|]. apply nth_error_Some. rewrite Hk. discriminate.
+Qed.
+
+Lemma cont_jref : forall s c, bsinv s -> cont_ok s c -> jref_ok s c.
+Proof. intros s c [Hb H0] [Hc|[k Hk]]; [subst; exact H0 | eapply Hb; [exact Hk | reflexivity]]. Qed.
+
+Lemma cont_ok_emit_put : forall s j m, cont_ok (emit s (I_Put, OExpr j) m) j.
+Proof.
+  intros s j m. right. exists (length (ci s)). cbn [emit ci]. rewrite nth_error_app2 by lia.
+  rewrite Nat.sub_diag. reflexivity.
 Qed.
 
 (* a fresh placeholder is a legitimate body reference *)
@@ -376,21 +401,21 @@ Proof. intros i x j H. destruct i; try discriminate; inversion H; reflexivity. Q
 Lemma body_ref_expr : forall i x j, body_ref (i, OExpr x) = Some j -> j = x.
 Proof. intros i x j H. destruct i; try discriminate; inversion H; reflexivity. Qed.
 
-Ltac bref Hrj :=
+Ltac bref Hb Hc :=
   let j := fresh "j" in let Hj := fresh "Hj" in
   intros j Hj;
   first [ exfalso; exact (body_ref_plain _ _ Hj)
         | exfalso; exact (body_ref_data _ _ _ Hj)
         | discriminate Hj
         | apply body_ref_num in Hj; subst j; apply jref_new_hole
-        | apply body_ref_expr in Hj; subst j; first [ apply jref_new_hole | exact Hrj ] ].
+        | apply body_ref_expr in Hj; subst j; first [ apply jref_new_hole | exact (cont_jref _ _ Hb Hc) ] ].
 
 Lemma inl_bsinv : forall t rj cx s s' ps items,
   inl init lit_ok rj t cx s = Ok (s', ps, items) ->
-  bsinv s -> jref_ok s rj -> bsinv s'.
+  bsinv s -> cont_ok s (cx_containing cx) -> bsinv s'.
 Proof.
   induction t as [ix d l r IHl IHr] using tree_ind'.
-  intros rj cx s s' ps items H Hb Hrj.
+  intros rj cx s s' ps items H Hb Hc.
   cbn [inl] in H. cbv zeta in H.
   destruct (kind_of d) eqn:Hk.
   all: repeat inv_ok.
@@ -402,15 +427,54 @@ Proof.
                       | pose proof (IHr _ eq_refl _ _ _ _ _ _ H) as F ];
                 clear H
               end.
+  all: cbn [cx_containing plain] in *.
   all: repeat lazymatch goal with
-              | |- bsinv (emit _ _ _) => apply bsinv_ext_emit; [| bref Hrj ]
+              | |- bsinv (emit _ _ _) => apply bsinv_ext_emit; [| bref Hb Hc ]
               | |- bsinv (new_jump _ _) => apply bsinv_new_jump
-              | F : bsinv ?sA -> jref_ok ?sA _ -> bsinv ?sB |- bsinv ?sB =>
-                apply F; [| eapply jref_ok_ext; [| exact Hrj ]; ext_solve_g ]
+              | F : bsinv ?sA -> cont_ok ?sA _ -> bsinv ?sB |- bsinv ?sB =>
+                apply F; [| eapply cont_ok_ext; [| exact Hc ]; ext_solve_g ]
               end.
   all: try assumption.
 Qed.
 
+(* the containing expression of every registered body is in the stream *)
+Lemma inl_pend_cont : forall t rj cx s s' ps items,
+  inl init lit_ok rj t cx s = Ok (s', ps, items) -> cont_ok s (cx_containing cx) ->
+  Forall (fun p => cont_ok s' (p_containing p)) ps.
+Proof.
+  induction t as [ix d l r IHl IHr] using tree_ind'.
+  intros rj cx s s' ps items H Hc.
+  cbn [inl] in H. cbv zeta in H.
+  destruct (kind_of d) eqn:Hk.
+  all: repeat inv_ok.
+  all: repeat match goal with
+              | H : inl _ _ _ ?a ?cxa ?sA = Ok (?sB, ?pB, ?iB) |- _ =>
+                let E := fresh "E" in let F := fresh "F" in
+                pose proof (inl_ext init lit_ok _ _ _ _ _ _ _ H) as E;
+                assert (F : Forall (fun p => cont_ok sB (p_containing p)) pB)
+                  by (first [ eapply IHl; [ reflexivity | exact H | ] | eapply IHr; [ reflexivity | exact H | ] ];
+                      cbn [cx_containing plain]; eapply cont_ok_ext; [| exact Hc ]; ext_solve_g);
+                clear H
+              end.
+  all: rewrite ?app_nil_r, ?app_nil_l.
+  all: repeat rewrite Forall_app.
+  all: repeat split.
+  all: try solve [ constructor ].
+  all: try solve [ eapply Forall_impl; [| eassumption ]; cbv beta; intros ? ?;
+                   eapply cont_ok_ext; [| eassumption ]; ext_solve_g ].
+  all: try solve [ constructor; [| constructor ]; cbn [p_containing];
+                   first [ solve [ apply cont_ok_emit_put ]
+                         | solve [ eapply cont_ok_ext; [| exact Hc ]; ext_solve_g ]
+                         | solve [ eapply cont_ok_ext; [| apply cont_ok_emit_put ]; ext_solve_g ] ] ].
+  (* else-chain head *)
+  match goal with
+  | Hi : ?p0 :: ?l1 = ?i1 ++ ?i2 |- _ =>
+    change (Forall (fun p => cont_ok (new_jump c (IL c)) (p_containing p))
+              (map (fun it : tree * nat => mkP (fst it) (cx_containing cx) (snd it) [(I_JumpTo, ONum (JL c))]) (p0 :: l1)))
+  end.
+  apply Forall_map. apply Forall_forall. intros x _. cbn [p_containing].
+  eapply cont_ok_ext; [| exact Hc ]. ext_solve_g.
+Qed.
 
 (* ---- P6: placeholders and joins come with a registered body or arm ---- *)
 Lemma inl_no_pends_no_jumps : forall t, drops_arms t = false -> forall rj cx s s' ps items,
